@@ -224,14 +224,14 @@ def destinations(case):
     uo, upo = _optval(outs, "--untrimmed-output"), _optval(outs, "--untrimmed-paired-output")
     discard_untrimmed = _optval(outs, "--discard-untrimmed") is not None
     if m["demux"] == "normal":
-        for nm in m["names1"]:
+        for nm in dict.fromkeys(m["names1"]):  # adapters sharing a name share a file
             dests.append(pairdest("sink", o.replace("{name}", nm), p.replace("{name}", nm) if p else None, key=nm))
         if not discard_untrimmed:
             u1 = uo if uo else o.replace("{name}", "unknown")
             u2 = (upo if upo else p.replace("{name}", "unknown")) if p else None
             dests.append(pairdest("sink", u1, u2, key=None))
     elif m["demux"] == "combinatorial":
-        combos = [(a, b) for a in m["names1"] for b in m["names2"]]
+        combos = [(a, b) for a in dict.fromkeys(m["names1"]) for b in dict.fromkeys(m["names2"])]
         if not discard_untrimmed:
             combos += [(None, None)] + [(None, b) for b in m["names2"]] + [(a, None) for a in m["names1"]]
         for a, b in combos:
